@@ -247,7 +247,17 @@ int symlink(const char *target, const char *linkpath) {
     if (!active) return real_symlink(target, linkpath);
     char b2[PATH_MAX];
     const char *p2 = absolute(AT_FDCWD, linkpath, b2, sizeof b2);
-    PATH_CALL_INT('m', "symlink", p2, NULL, target, real_symlink(target, linkpath));
+    /* path = the link that is created, path2 = its target text (not a path that is touched) */
+    do {
+        int fe;
+        long k = under_root(p2) ? event_begin('m', &fe) : (fe = 0, -1);
+        if (fe) { event_end(k, 'm', "symlink", p2, target, "", -1, fe); errno = fe; return -1; }
+        long r_ = real_symlink(target, linkpath);
+        int e_ = errno;
+        event_end(k, 'm', "symlink", p2, target, "", r_, r_ < 0 ? e_ : 0);
+        errno = e_;
+        return r_;
+    } while (0);
 }
 
 int unlink(const char *a) {
